@@ -545,6 +545,22 @@ impl ClientAEADCodec {
         (self.body_encoder matches Some(e) ==> e.wf()) && (self.body_decoder matches Some(d) ==> d.wf())
     }
 }
+/// V2Fly VMess request header (plaintext, before sealing): version 1 | body iv (16) | body key (16) | response byte | option mask |
+/// padding length (high nibble) and security (low nibble) | reserved 0 | command | port, type, address | padding | FNV-1a of all that (4, big endian)
+spec fn vreq_layout(h: Seq<u8>, iv: Seq<u8>, key: Seq<u8>, resp: u8, mask: u8, sec: u8, cmd: u8, addr: Seq<u8>) -> bool {
+    let p = (h[35] >> 4u8) as int;
+    &&& h.len() == 38 + addr.len() + p + 4
+    &&& h[0] == 1 && h.subrange(1, 17) == iv && h.subrange(17, 33) == key && h[33] == resp && h[34] == mask
+    &&& (h[35] & 0x0fu8) == sec && h[36] == 0 && h[37] == cmd
+    &&& h.subrange(38, 38 + addr.len() as int) == addr
+    &&& h.subrange(h.len() - 4, h.len() as int) == be_bytes(fnv1a32_spec(h.take(h.len() - 4)) as nat, 4)
+}
+proof fn lemma_nibbles(p: u8, s: u8)
+    requires p < 16, s < 16,
+    ensures (((p << 4u8) | s) >> 4u8) == p, (((p << 4u8) | s) & 0x0fu8) == s,
+{
+    assert((((p << 4u8) | s) >> 4u8) == p && (((p << 4u8) | s) & 0x0fu8) == s) by (bit_vector) requires p < 16, s < 16;
+}
 impl ClientAEADCodec {
     fn new(header: RequestHeader) -> (r: Self)
         ensures r.header == header, r.body_encoder is None, r.body_decoder is None, r.wf(),
@@ -585,7 +601,23 @@ impl ClientAEADCodec {
                 header.put_u8(self.header.command as u8);
                 vaddress__write_address_port(&self.header.address, &mut header)?; // address
                 header.extend_from_slice(&dice::roll_bytes(padding_len as usize)); // padding
+                let ghost h0 = header@;
                 header.put_u32(fnv__fnv1a32(&header));
+                let ghost h = header@;
+                proof {
+                    let a = encv(absaddr(self.header.address));
+                    lemma_nibbles(padding_len, security as u8);
+                    lemma_be_bytes_len(fnv1a32_spec(h0) as nat, 4);
+                    assert(h0.len() == 38 + a.len() + padding_len);
+                    assert(h.take(h.len() - 4) =~= h0);
+                    assert(h.subrange(h.len() - 4, h.len() as int) =~= be_bytes(fnv1a32_spec(h0) as nat, 4));
+                    assert(h.subrange(1, 17) =~= self.session.request_body_iv@);
+                    assert(h.subrange(17, 33) =~= self.session.request_body_key@);
+                    assert(h.subrange(38, 38 + a.len() as int) =~= a);
+                    //#C03 C01 C14
+                    // what is sealed as the request header is the published layout, with this session's body key/iv and response byte, and the target address
+                    assert(vreq_layout(h, self.session.request_body_iv@, self.session.request_body_key@, self.session.response_header, mask_of(self.header.option@), self.header.security as u8, self.header.command as u8, a));
+                }
                 dst.extend_from_slice(&encrypt__seal_header(&self.header.id, header.freeze())?);
                 self.body_encoder = Some(AEADBodyCodec::new_encoder(&self.header, &mut self.session)?);
                 self.encode(item, dst)
